@@ -159,7 +159,19 @@ def one_queue(ctx, he, rng, proto, mpm, n):
   index = {}
   out = []
   lproto = proto
-  cutsets = wiresys.all_cuts(len(raw), rng, ctx.pick(6, 25)) if len(raw) > 1 else [[]]
+  pri = set()
+  acc = 0
+  for fr in frames:
+    for d in range(-4, 6):
+      pri.add(acc + d)
+    acc += fr['len']
+  pri = [c for c in pri if 0 < c < len(raw)]
+  rng.shuffle(pri)
+  cutsets = wiresys.all_cuts(len(raw), rng, ctx.pick(5, 20), pri[:ctx.pick(3, 12)]) if len(raw) > 1 else [[]]
+  # (byte-by-byte delivery only for the first 150 bytes: TLC judges every segment)
+  cutsets = [c if len(c) <= 160 else c[:150] for c in cutsets]
+  byname = {dps[q][0]: q for q in range(n)}
+  relcache = {}
   for cuts in cutsets:
     run = wiresys.Run(he.wm, lproto)
     segs = []
@@ -173,11 +185,11 @@ def one_queue(ctx, he, rng, proto, mpm, n):
         for j, g in enumerate(new):
           expect_idx = nseen + j          # position in the overall delivery order
           # identify by name (unique), then check the relation
-          cand = [q for q in range(n) if dps[q][0] == g[0]]
-          if cand and related(proto, dps[cand[0]], g):
-            dl.append(cand[0] + 1)
-          else:
-            dl.append(0)
+          q = byname.get(g[0])
+          key = (q, g[1], g[2])
+          if key not in relcache:
+            relcache[key] = q is not None and related(proto, dps[q], g)
+          dl.append(q + 1 if relcache[key] else 0)
         nseen = len(run.seen)
         segs.append(dict(n=b - a, delivered=dl, escaped=esc, closed=1 if run.tr.disconnecting else 0))
     finally:
